@@ -560,6 +560,24 @@ func genCmp(w *bufio.Writer, thorough bool, r *Rng) {
 		src = append(src, r.Bytes(12+r.Intn(25))...)
 		both(src, boundOf(len(src)))
 	}
+	// HC never extends a match backwards and probes with a growing stride (1 + run>>7): the literal runs it
+	// can emit in front of a match are the probe positions only.  Those of the form 15+255k (a final 0xFF
+	// length byte that needs a terminating zero) are rare; the smallest ones are used here.
+	hcRuns := 1
+	if thorough {
+		hcRuns = 2
+	}
+	prev, cur, found := 0, 0, 0
+	for cur < 4<<20 && found < hcRuns {
+		if cur >= 270 && (cur-15)%255 == 0 {
+			src := r.Bytes(cur)
+			src = append(src, src[prev:prev+40]...)
+			src = append(src, r.Bytes(14+r.Intn(10))...)
+			fmt.Fprintf(w, "CH obj %d %d %s\n", r.Pick([]int{1, 2, 512}), boundOf(len(src)), hx(src))
+			found++
+		}
+		prev, cur = cur, cur+1+cur>>7
+	}
 	// around the 64 KiB window and 16-bit table positions
 	for i := 0; i < big; i++ {
 		n := r.Pick([]int{65533, 65536, 65539, 70000, 131069, 131072, 131075, 200000})
